@@ -57,8 +57,9 @@ BOUNDS = {"quick": "masks up to 7x8; 4080 cases = 1530 uniform-map + 510 adaptiv
 EXHAUSTIVE = {"quick": False, "thorough": False}
 ASSUMPTIONS = [
     "sub-pixel coordinates compared with the closed formula to 1e-12*max(1,|coordinate|_inf); binned values to "
-    "1e-12 (unique-valued data, affine functions) resp. 1e-10 (user functions) of the largest sub-value; iterate "
-    "results to 1e-9 of the largest reference / pixel-centre value",
+    "1e-12 (unique-valued data, affine functions) resp. 1e-10 (user functions) of max(largest |sub-value|, 1e-2 * the "
+    "function's amplitude bound); iterate results to 1e-9 of the same scale (next to a zero crossing a value is only "
+    "defined up to |grad f| * coordinate rounding)",
     "iterate: a pixel whose agreement ratio lies within 1e-9 of the requested accuracy or whose absolute difference "
     "lies within 1e-9 (relative) of the tolerance at some level is a tie: counted as don't-care, not compared",
     "sub-size maps are integer typed (a float-typed Array2D map makes slim_for_sub_slim / sub_pixel_areas raise "
@@ -207,7 +208,11 @@ FUNC_KINDS = ("const", "affine", "gauss", "fourier", "clipped", "cusp", "negativ
 
 
 def make_func(rng, m, scales, origin, kind=None, zero_all_centres=False):
-    """Pointwise f: (N,2) array of (y,x) -> (N,). Returns (f, json-able description)."""
+    """
+    Pointwise f: (N,2) array of (y,x) -> (N,). Returns (f, json-able description). description["mag"] bounds |f| over
+    the frame: comparisons use max(largest |f| actually seen, 1e-2*mag) as the scale, because next to a zero crossing
+    of f the value itself is only defined up to |grad f| * (rounding of the coordinates) ~ 1e-14*mag.
+    """
     kind = kind or FUNC_KINDS[int(rng.integers(len(FUNC_KINDS)))]
     H, W = m.shape
     amp = float(np.exp(rng.uniform(np.log(1e-3), np.log(1e3))))
@@ -223,21 +228,23 @@ def make_func(rng, m, scales, origin, kind=None, zero_all_centres=False):
         ky, kx = rng.uniform(-4.0, 4.0, K), rng.uniform(-4.0, 4.0, K)
         a, ph = rng.normal(size=K), rng.uniform(0, 2 * np.pi, K)
         off = float(rng.choice([0.0, 0.3, 4.0]))
-        d.update(ky=ky.tolist(), kx=kx.tolist(), a=a.tolist(), phase=ph.tolist(), offset=off)
+        d.update(ky=ky.tolist(), kx=kx.tolist(), a=a.tolist(), phase=ph.tolist(), offset=off,
+                 mag=amp * (abs(off) + float(np.sum(np.abs(a)))))
         return lambda u, v: amp * (off + sum(a[i] * np.sin(ky[i] * u + kx[i] * v + ph[i]) for i in range(K)))
 
     if kind == "const":
         c = float(rng.choice([0.0, amp, amp, -amp]))
         d["c"] = c
+        d["mag"] = abs(c)
         base = lambda u, v: np.full(u.shape, c)
     elif kind == "affine":
         a, b, c = float(rng.normal()), float(rng.normal()), float(rng.choice([0.0, 1.0, 5.0, -1.0]))
-        d.update(a=a, b=b, c=c)
+        d.update(a=a, b=b, c=c, mag=amp * (abs(c) + abs(a) * H + abs(b) * W))
         base = lambda u, v: amp * (c + a * u + b * v)
     elif kind in ("gauss", "zero_at_some_centres"):
         sig = float(rng.uniform(0.25, 1.5))
         floor = float(rng.choice([0.0, 1e-3, 0.2]))
-        d.update(u0=u0, v0=v0, sigma=sig, floor=floor)
+        d.update(u0=u0, v0=v0, sigma=sig, floor=floor, mag=amp * (1.0 + floor))
         base = lambda u, v: amp * (floor + np.exp(-((u - u0) ** 2 + (v - v0) ** 2) / (2 * sig ** 2)))
     elif kind == "fourier":
         g = fourier_params()
@@ -247,11 +254,11 @@ def make_func(rng, m, scales, origin, kind=None, zero_all_centres=False):
         base = lambda u, v: np.maximum(g(u, v), 0.0)
     elif kind == "cusp":
         eps, gam = float(rng.uniform(0.02, 0.3)), float(rng.choice([0.5, 1.0, 2.0]))
-        d.update(u0=u0, v0=v0, eps=eps, gamma=gam)
+        d.update(u0=u0, v0=v0, eps=eps, gamma=gam, mag=amp / eps ** gam)
         base = lambda u, v: amp / (np.sqrt((u - u0) ** 2 + (v - v0) ** 2) + eps) ** gam
     elif kind == "negative":
         sig = float(rng.uniform(0.4, 1.5))
-        d.update(u0=u0, v0=v0, sigma=sig)
+        d.update(u0=u0, v0=v0, sigma=sig, mag=1.1 * amp)
         base = lambda u, v: -amp * (0.1 + np.exp(-((u - u0) ** 2 + (v - v0) ** 2) / (2 * sig ** 2)))
     else:
         raise ValueError(kind)
@@ -350,6 +357,10 @@ def mask_classes(m, fam, scales, origin):
     if origin != (0.0, 0.0):
         c.append("shifted_origin")
     return c
+
+
+def func_scale(fd, values):
+    return max(float(np.max(np.abs(values))) if np.size(values) else 0.0, 1e-2 * float(fd.get("mag", 0.0))) or 1.0
 
 
 def cscale(x):
@@ -458,7 +469,7 @@ def check_uniform(ctx, i):
     # --- user function through the sampler and through the decorator (probe)
     f, fd = make_func(r, m, scales, origin)
     exp_f = ref_bin(f(exp_grid), sub)
-    fscale = float(np.max(np.abs(f(exp_grid)))) or 1.0
+    fscale = func_scale(fd, f(exp_grid))
     P = ctx.profiles["VerifC09Ones"]
     p = P(f)
     ok, b = ctx.guarded("sampler.exception", lambda: osr.array_via_func_from(func=undecorated, obj=p))
@@ -513,7 +524,7 @@ def check_dispatch(ctx, p, res, gin, m, scales, origin, sub, f, fd, variant, W, 
               expected=exp_grid, got=lambda: p.log[0][1] if p.log else None, **W)
     vals = f(exp_grid)
     exp = ref_bin(vals, sub)
-    fscale = float(np.max(np.abs(vals))) or 1.0
+    fscale = func_scale(fd, vals)
     ctx.check(is_array2d_on(aa, res, m) and ctx.close(_np(res.slim), exp, 1e-10, scale=fscale),
               tag + ".binned", variant=variant, function=fd, expected=exp,
               got=lambda: _np(res), result_type=type(res).__name__, **W)
@@ -582,7 +593,7 @@ def run_iterate(ctx, key, m, fam, scales, origin, f, fd, steps, frac, tol, how, 
     if ok:
         ctx.check(is_array2d_on(aa, res, m), "iterate.result_container", got=type(res).__name__, **W)
         got = np.asarray(_np(res.slim) if hasattr(res, "slim") else _np(res), dtype=float).reshape(-1)
-        scale = fmax or 1.0     # largest |f| over every sub-value the reference evaluated
+        scale = max(fmax, 1e-2 * float(fd.get("mag", 0.0))) or 1.0   # fmax: largest |f| over every sub-value the reference evaluated
         keep = ~ties
         ctx.skipped["iterate_pixels_on_a_threshold_tie"] += int(ties.sum())
         good = got.shape == exp.shape and bool(np.all(np.abs(got[keep] - exp[keep]) <= 1e-9 * scale))
